@@ -1,4 +1,5 @@
 import CEModel.Discovery
+import CEModel.OcseSpec
 /-! Driver handlers for the discovery model: scripted estimators / oracles. -/
 open Lean
 namespace CE.Disc
@@ -105,6 +106,33 @@ def hOcse (j : Json) : R Json := do
     | "backward" => pure (backward o αb { S := zinit, c := 0, evs := [] })
     | _ => throw "bad variant"
   return Json.mkObj [("S", listJ natJ st.S), ("events", listJ evJ st.evs), ("draws", natJ st.c)]
+
+def jPhase (j : Json) : R Phase := do
+  match (← jStr j) with
+  | "fwd" => return .fwd
+  | "bwd" => return .bwd
+  | "edge" => return .edge
+  | _ => throw "bad phase"
+
+def jEv (j : Json) : R Ev := do
+  match (← jArr j) with
+  | [ph, lv, c, z, o, pa, p] =>
+    return { phase := ← jPhase ph, level := ← jRat lv, cand := ← jNat c, cond := ← jList jNat z,
+             obs := ← jVal o, pass := ← jBool pa, p := ← jRat p }
+  | _ => throw "bad event"
+
+/-- op `spec_ok`: judge a trace RECORDED FROM THE IMPLEMENTATION by the declarative checker -/
+def hSpecOk (j : Json) : R Json := do
+  let variant ← jBool (← jField j "standard")
+  let n ← jNat (← jField j "ncand")
+  let zinit ← jList jNat (← jField j "zinit")
+  let αf ← jRat (← jField j "af")
+  let αb ← jRat (← jField j "ab")
+  let ftab ← jList jFEntry (← jField j "f")
+  let evs ← jList jEv (← jField j "events")
+  let result ← jList jNat (← jField j "result")
+  let o := tableOracles ftab #[] #[]
+  return .bool (specOK variant o.f αf αb n zinit evs result)
 
 /-- op `shuffle_decide`: threshold bracket, exact threshold, p-value and verdict from null values -/
 def hShuffleDecide (j : Json) : R Json := do
